@@ -169,7 +169,8 @@ public:
     void rollback(std::size_t iteration) override
     {
         Checkpoint::rollback(iteration);
-        generators_.erase(generators_.begin() + iteration, generators_.end());
+        // there is one generator more than results: keep the one that produces iteration `iteration`
+        generators_.erase(generators_.begin() + iteration + 1, generators_.end());
     }
 
     void serialize(std::ostream& out) const override
